@@ -15,3 +15,4 @@ m --file batch_verify.go --suite --checks C17,C06,C13 --configs K0 --n $N --seed
 m --file ed25519.go --suite --checks C01,C02,C04,C05,C07,C13,C14 --configs K0 --n 100 --seed 20
 m --file extra/x25519/x25519.go --suite --checks C11,C12,C13 --configs K0 --n 60 --seed 21
 m --file internal/ge25519/cofactor_equal.go --suite --checks C16,C09,C01 --configs K0 --n 40 --seed 22
+m --file internal/ge25519/movecond_unsafe.go --lines 91-123 --goarch 386 --checks C16 --configs K6 --n 40 --seed 23 --out /verif/seeded/mutation-movecond_unsafe.go-386.json
